@@ -59,7 +59,7 @@ Inductive policy_msg :=
 | PAddRewardPeriods (ps : list rp_msg)
 | PAddLppd (ps : list lppd_period)
 | PUpdatePmtpParams (gov : dec_field) (epoch_len start end_ : Z) (br : option Z)
-| PModifyPmtpRates (block running : dec_field) (end_policy : bool)
+| PModifyPmtpRates (block running : dec_field) (end_policy : bool) (br : option Z)
 | PUpdateLPParams (max epoch : Z) (active : bool)
 | PModifyLPRates (current : Z)
 | PUpdateSwapFee (default : Z) (token_rates : list Z).     (* Dec; the per-token overrides' rates *)
@@ -117,7 +117,7 @@ Definition policy_end_rate (pm : pmtp_state) (b : Z) : Outcome Z :=
 (* UpdatePmtpParams: a policy of negative rate lowers the running rate until its last block; one that would bring it to -1 or
    below is refused. [br] is what PmtpPeriodBlockRate (float arithmetic, printed with 18 decimals) returns for the policy *)
 Definition end_rate_ok (pm : pmtp_state) (br : option Z) : Outcome unit :=
-  if 0 <=? pm_gov pm then Ok tt else
+  if (0 <=? pm_gov pm) || (pm_epoch_len pm <=? 0) then Ok tt else
   match br with
   | None => Err 3
   | Some b => if 0 <=? b then Ok tt else r <- policy_end_rate pm b ;; if r <=? - PREC then Err 5 else Ok tt
@@ -141,7 +141,9 @@ Definition update_pmtp_params (s : policy_state) (gov : dec_field) (epoch_len st
               let pm' := pm <| pm_gov := g |> in u <- end_rate_ok pm' br ;; Ok (s <| pol_pmtp := pm' |>)
   end.
 
-Definition modify_pmtp_rates (s : policy_state) (block running : dec_field) (end_policy : bool) : Outcome policy_state :=
+(* [br]: the block rate of the policy that is scheduled (see end_rate_ok); a running rate set before that policy starts is
+   the rate it will start from *)
+Definition modify_pmtp_rates (s : policy_state) (block running : dec_field) (end_policy : bool) (br : option Z) : Outcome policy_state :=
   let inside := in_window s in
   pm1 <- match block with
          | DEmpty => Ok (pol_pmtp s)
@@ -152,7 +154,9 @@ Definition modify_pmtp_rates (s : policy_state) (block running : dec_field) (end
          | DEmpty => Ok pm1
          | _ => if inside then Ok pm1 else
                 match running with
-                | DVal r => if r <=? - PREC then Err 4 else Ok (pm1 <| pm_running := r |> <| pm_inter := r |>)
+                | DVal r => if r <=? - PREC then Err 4 else
+                            let pm' := pm1 <| pm_running := r |> <| pm_inter := r |> in
+                            if pol_height s <? pm_start pm1 then u <- end_rate_ok pm' br ;; Ok pm' else Ok pm'
                 | _ => Err 3
                 end
          end ;;
@@ -177,7 +181,7 @@ Definition policy_handle (s : policy_state) (m : policy_msg) : Outcome policy_st
   | PAddRewardPeriods ps => if forallb rp_valid ps then Ok (s <| pol_rewards := map rp_of_msg ps |>) else Err 1
   | PAddLppd ps => if forallb lppd_valid ps then Ok (s <| pol_lppd := ps |>) else Err 1
   | PUpdatePmtpParams g el st en br => update_pmtp_params s g el st en br
-  | PModifyPmtpRates b r e => modify_pmtp_rates s b r e
+  | PModifyPmtpRates b r e br => modify_pmtp_rates s b r e br
   | PUpdateLPParams mx ep a => update_lp_params s mx ep a
   | PModifyLPRates c => modify_lp_rates s c
   | PUpdateSwapFee d rs => if fee_rate_ok d && forallb fee_rate_ok rs then Ok s else Err 1
